@@ -259,7 +259,8 @@ func TestVerifC02Verdict(t *testing.T) {
 		"req-allow-beats-block", "req-blocked", "req-blocked-hosts-only", "req-safety-second-or-later", "req-svc-rewrite-ignored",
 		"resp-blocked", "resp-allowed", "slots>=3", "meta-allow-added", "meta-rewrite-moved",
 		"repeated-question", "repeated-question-other-requester-modified-response", "change-qtype", "change-host", "edge-host-root-or-tld",
-		"own-allow-equals-shared-allow-with-safety-match", "self-rewrite-target-queried-mixed-case", "case-variant-pair-compared", "rewrite-aaaa-ipv4-mapped")
+		"own-allow-equals-shared-allow-with-safety-match", "self-rewrite-target-queried-mixed-case", "case-variant-pair-compared", "rewrite-aaaa-ipv4-mapped",
+		"https-answer-second-hint-decides")
 	st.Finish(t)
 
 	dir := t.TempDir()
@@ -500,6 +501,7 @@ func TestVerifC02Verdict(t *testing.T) {
 		// Response side.
 		qt := rapid.SampledFrom(vc02ref.QTypes).Draw(t, "respQt")
 		up := vc02ref.DrawUpAnswer(t, qt)
+		vc02ref.BiasHints(t, &up, c, qt)
 		req := vc02Req(t, msgs, focus, qt)
 		upMsg := up.Build(req.DNS)
 		want := c.EvalResponse(upMsg)
@@ -520,7 +522,12 @@ func TestVerifC02Verdict(t *testing.T) {
 			nt = fmt.Sprintf("%v|resp|%s", desc, vc02ref.MsgString(upMsg))
 		}
 
-		st.Case(nt, cls, "resp-shape-"+vc02ref.UpShapeNames[up.Shape], "resp-acceptable-"+vc02ref.KindSet(want))
+		hintCls := ""
+		if c.LaterHintDecides(upMsg) {
+			hintCls = "https-answer-second-hint-decides"
+		}
+
+		st.Case(nt, cls, "resp-shape-"+vc02ref.UpShapeNames[up.Shape], "resp-acceptable-"+vc02ref.KindSet(want), hintCls)
 	})
 }
 
